@@ -1032,7 +1032,8 @@ struct Exec {
                 ++res.st.next_checked;
                 std::string gs = word_str(s, m, got);
                 if (s.decoded) {
-                    // decode_dispatch_data never writes next
+                    // decode_dispatch_data did not write next before the
+                    // repair of finding K1
                     J d = base_diag(s, L);
                     d.set("slot", m.slot);
                     d.set("def", J::arr_of(plan.recs[di].vp));
@@ -1396,7 +1397,8 @@ struct Exec {
             std::uint64_t total = 1;
             for (int i = 0; i < k; ++i) {
                 for (int c = 0; c < L.n; ++c)
-                    if (L.reg[c] && !L.abstract[c] && L.le(c, mr.vp[i]))
+                    if (L.reg[c] && (!L.abstract[c] || plan.abstract_args) &&
+                        L.le(c, mr.vp[i]))
                         cand[i].push_back(c);
                 total *= cand[i].size();
                 if (total > 100000000ULL)
@@ -1503,7 +1505,7 @@ struct Exec {
                 verify_call(s, L, m, tuple, args, want, true, false, "C01");
                 if (stop)
                     return;
-                if (e.call_next && want.kind == RES_DEF && !s.decoded &&
+                if (e.call_next && want.kind == RES_DEF &&
                     !plan.recs[want.def].nonext &&
                     next_done.insert(want.def).second) {
                     verify_call(s, L, m, tuple, args, want, false, true, "C01");
@@ -1574,7 +1576,8 @@ struct Exec {
         std::vector<std::vector<int>> cand(k);
         for (int i = 0; i < k; ++i) {
             for (int c = 0; c < L.n; ++c)
-                if (L.reg[c] && !L.abstract[c] && L.le(c, mr.vp[i]))
+                if (L.reg[c] && (!L.abstract[c] || plan.abstract_args) &&
+                    L.le(c, mr.vp[i]))
                     cand[i].push_back(c);
             if (cand[i].empty())
                 return;
@@ -2269,7 +2272,8 @@ struct Exec {
     }
 
     bool legal_arg(PolState& s, const Lattice& L, int c, int alias, int pc) {
-        if (c < 0 || c >= L.n || !L.reg[c] || L.abstract[c] || !L.le(c, pc))
+        if (c < 0 || c >= L.n || !L.reg[c] ||
+            (L.abstract[c] && !plan.abstract_args) || !L.le(c, pc))
             return false;
         if (s.ops->caps.stdrtti)
             return alias == 0;
@@ -2544,7 +2548,7 @@ struct Exec {
     bool held_usable(PolState& s, const HeldVp& h, const Lattice& L) {
         if (!h.live)
             return false;
-        if (!L.reg[h.cls] || L.abstract[h.cls])
+        if (!L.reg[h.cls] || (L.abstract[h.cls] && !plan.abstract_args))
             return false;
         if (!s.ops->caps.stdrtti &&
             !((registered_aliases(s.updated, h.cls) >> h.alias) & 1u))
@@ -3262,6 +3266,7 @@ RunResult run_plan(const Plan& plan, const ExecOpts& opts) {
             v.pols = {pname};
             v.w = base.final_world;
             v.allow_missing = 0;
+            v.abstract_args = plan.abstract_args;
             Event load;
             load.op = OP_LOAD;
             auto add = [&](const Rec& r) {
